@@ -67,7 +67,8 @@ class C02(object):
     required_counters = ('equations_judged', 'exact_judged', 'lag_judged', 'hostile.loud', 'failpoint.recovered',
                          'model_level.judged', 'rival_user_function.cases', 'solver_reused_for_variant.cases',
                          'solver_reused_after_coarser_block.cases', 'route.constructor', 'route.manual_steps',
-                         'zero_tolerance_requested.cases')
+                         'zero_tolerance_requested.cases',
+                         'retry_after_failed_solve.cases')
 
     def n_cases(self, tier):
         return 400 if tier == 'quick' else 40000
@@ -77,6 +78,20 @@ class C02(object):
             from vf.gen import modelspec as M
             return {'kind': 'model', 'spec': M.gen_spec(rng, n_zones=rng.choice([1, 2]), maxtime=rng.randint(2, 4)),
                     'reduction': True}
+        if idx % 20 == 13:
+            # a job that FAILS at a later period (too few sweeps for the shock), after which the caller gives the same solver
+            # object more sweeps and solves again: what it then returns is judged like any other normal return
+            g0, g1 = rng.choice([5.0, 10.0, 20.0]), rng.choice([1.0, 40.0, 80.0])
+            T = rng.randint(3, 8)
+            s_ = rng.randint(2, T)
+            # small movements before the shock (so that every period has its own lagged values), a large one at s_
+            gpath = [g0 + 0.001 * j for j in range(s_)] + [g1] * (T + 1 - s_) + [g1] * rng.randint(0, 2)
+            text = ('x = 0.5*cnt(y, k) + g\ny = 0.5*x + 0.25*LAG_x\nLAG_x = x(k-1)\nd = x + y\nw = 0.5*w + 0.125*LAG_x + 1.0\n'
+                    'x(0) = %r\ny(0) = %r\nw(0) = %r\nMaxTime = %d\nErr_Tolerance = 1e-9\nexogenous\ng = %r'
+                    % (1.6 * g0, 1.2 * g0, 2.0 + 0.4 * g0, T, gpath))
+            return {'kind': 'retry', 'text': text, 'shock_at': s_, 'maxtime': T, 'g': gpath, 'tol': 1e-9,
+                    'first_cap': rng.choice([3, 5, 8]), 'reduction': rng.random() < 0.5,
+                    'how': rng.choice(['solve_again', 'solve_again', 'restart_step_loop'])}
         r = rng.random()
         if r < 0.08:
             h = rng.randrange(len(HOSTILE))
@@ -168,6 +183,8 @@ class C02(object):
         kind = case['kind']
         if kind == 'model':
             return self.run_model(case)
+        if kind == 'retry':
+            return self.run_retry(case)
         counters = {}
         funcs = {}
         if kind == 'system':
@@ -289,6 +306,70 @@ class C02(object):
                'equations_judged': stats['equations_judged'], 'exact': sorted(exact)[:6]}
         return {'verdict': 'violated' if viol else 'held', 'nontrivial': nontrivial, 'shape': shape,
                 'counters': counters, 'violations': viol[:5], 'obs': obs,
+                'worst': {'residual_over_bound': stats['worst_ratio']}}
+
+    def run_retry(self, case):
+        from sfc_models.equation_solver import EquationSolver, ConvergenceError
+        counters = {}
+        # probe (a separate solver): how many sweeps does each period need?  the cap of the first attempt is then set
+        # between what the quiet periods need and what the shock needs
+        sweeps = {}
+
+        def cnt_probe(v, k):
+            sweeps[int(k)] = sweeps.get(int(k), 0) + 1
+            return v
+        probe = EquationSolver(run_equation_reduction=case['reduction'])
+        probe.AddFunction('cnt', cnt_probe)
+        probe.MaxIterations = 5000
+        with contextlib.redirect_stdout(io.StringIO()):
+            probe.ParseString(case['text'])
+            probe.SolveEquation()
+        quiet = max([n for k_, n in sweeps.items() if 1 <= k_ < case['shock_at']] or [1])
+        loud = sweeps.get(case['shock_at'], 0)
+        if loud <= quiet + 2:
+            return {'verdict': 'notjudged', 'shape': 'retry|no_gap_between_quiet_and_shock', 'counters': counters}
+        solver = EquationSolver(run_equation_reduction=case['reduction'])
+        solver.AddFunction('cnt', lambda v, k: v)
+        solver.MaxIterations = (quiet + loud) // 2
+        first = 'returned'
+        with contextlib.redirect_stdout(io.StringIO()):
+            solver.ParseString(case['text'])
+            try:
+                solver.SolveEquation()
+            except ConvergenceError:
+                first = 'ConvergenceError'
+            except ValueError as e:
+                first = 'ValueError'
+            solver.MaxIterations = 5000
+            try:
+                if case['how'] == 'solve_again':
+                    solver.SolveEquation()
+                else:
+                    solver.ExtractVariableList()
+                    solver.SetInitialConditions()
+                    for step_ in range(1, solver.Parser.MaxTime + 1):
+                        solver.SolveStep(step_)
+            except Exception as e:
+                return {'verdict': 'notjudged', 'shape': 'retry|second_failed:' + type(e).__name__, 'counters': counters,
+                        'obs': {'err': repr(e)[:200]}}
+        if first == 'ConvergenceError':
+            counters['retry_after_failed_solve.cases'] = 1
+        blk = B.split_block(case['text'])
+        series = dict(solver.TimeSeries)
+        viol, stats = B.check_solution(blk, series, case['tol'], funcs={'cnt': lambda v, k: v})
+        n = case['maxtime'] + 1
+        if list(series.get('g', [])) != list(case['g'][:n]):
+            viol.append({'kind': 'exogenous_not_supplied_values', 'detail': {'var': 'g', 'got': list(series.get('g', []))[:8]}})
+        for v in viol:
+            v['mechanism'] = v['kind']
+            v['detail']['after'] = 'a failed solve (%s at period %d, cap %d) followed by %s on the same solver' % (
+                first, case['shock_at'], case['first_cap'], case['how'])
+            v['detail']['block'] = case['text']
+        for k_ in ('equations_judged', 'exact_judged', 'lag_judged', 'finite_judged'):
+            counters[k_] = stats[k_]
+        return {'verdict': 'violated' if viol else 'held', 'nontrivial': first != 'returned', 'shape': 'retry|' + case['how'],
+                'counters': counters, 'violations': viol[:5],
+                'obs': {'first_outcome': first, 'shock_at': case['shock_at'], 'worst_ratio': stats['worst_ratio']},
                 'worst': {'residual_over_bound': stats['worst_ratio']}}
 
     @staticmethod
